@@ -105,6 +105,11 @@ class C01(object):
         if rnd.random() < 0.1:
             sc[0], fc[0] = pars["z_center"], pars["y_center"]  # exactly on the direct beam
         om = g.uniform(-360, 360, n)
+        if rnd.random() < 0.35:
+            # a peak table sorted by frame: runs of exactly equal omega values (which straddle the chunk boundaries of a team)
+            om = np.sort(g.choice(g.uniform(-180, 180, rnd.choice([1, 2, 3, 7])), n))
+            if rnd.random() < 0.3:
+                om = om[::-1].copy()
         return {"entry": "geometry", "pars": pars, "sc": sc.tolist(), "fc": fc.tolist(), "omega": om.tolist(),
                 "cfg": cfgK, "cfgP": cfgP, "use_translation_arg": rnd.random() < 0.3,
                 "route": rnd.choice(["updateGeometry", "updateGeometry", "updateGV", "sf2gv", "get_local_gv"]),
